@@ -551,6 +551,95 @@ func (w *vWorld) mutatingOp() {
 			m.Outer(mkVector(e, o.sa, cycle(o.a, h.rows)), mkVector(e, o.sb, cycle(o.b, h.cols)))
 			return obs{}
 		}},
+		{"MdivM", true, func(m ad.Matrix) obs {
+			// divisor without zeros
+			m.MdivM(mkMatrix(e, o.sa, h.rows, h.cols, o.a), mkMatrix(e, false, h.rows, h.cols, nonzero(o.b)))
+			return obs{}
+		}},
+		{"MdivS", true, func(m ad.Matrix) obs {
+			m.MdivS(mkMatrix(e, o.sa, h.rows, h.cols, o.a), ad.NewScalar(e.t, nonzero([]float64{o.x})[0]))
+			return obs{}
+		}},
+		// the concrete-type variants: receiver and operands of one concrete type
+		// (dense storage has them; the interface method is the fallback)
+		{"MADDM", !w.sparse, func(m ad.Matrix) obs {
+			a, b := mkMatrix(e, false, h.rows, h.cols, o.a), mkMatrix(e, false, h.rows, h.cols, o.b)
+			if !typedCall(m, "MADDM", a, b) {
+				m.MaddM(a, b)
+			}
+			return obs{}
+		}},
+		{"MSUBM", !w.sparse, func(m ad.Matrix) obs {
+			a, b := mkMatrix(e, false, h.rows, h.cols, o.a), mkMatrix(e, false, h.rows, h.cols, o.b)
+			if !typedCall(m, "MSUBM", a, b) {
+				m.MsubM(a, b)
+			}
+			return obs{}
+		}},
+		{"MMULM", !w.sparse, func(m ad.Matrix) obs {
+			a, b := mkMatrix(e, false, h.rows, h.cols, o.a), mkMatrix(e, false, h.rows, h.cols, o.b)
+			if !typedCall(m, "MMULM", a, b) {
+				m.MmulM(a, b)
+			}
+			return obs{}
+		}},
+		{"MDIVM", !w.sparse, func(m ad.Matrix) obs {
+			a, b := mkMatrix(e, false, h.rows, h.cols, o.a), mkMatrix(e, false, h.rows, h.cols, nonzero(o.b))
+			if !typedCall(m, "MDIVM", a, b) {
+				m.MdivM(a, b)
+			}
+			return obs{}
+		}},
+		{"MADDS", !w.sparse, func(m ad.Matrix) obs {
+			a, x := mkMatrix(e, false, h.rows, h.cols, o.a), ad.NewScalar(e.t, o.x)
+			if !typedCall(m, "MADDS", a, x) {
+				m.MaddS(a, x)
+			}
+			return obs{}
+		}},
+		{"MSUBS", !w.sparse, func(m ad.Matrix) obs {
+			a, x := mkMatrix(e, false, h.rows, h.cols, o.a), ad.NewScalar(e.t, o.x)
+			if !typedCall(m, "MSUBS", a, x) {
+				m.MsubS(a, x)
+			}
+			return obs{}
+		}},
+		{"MMULS", !w.sparse, func(m ad.Matrix) obs {
+			a, x := mkMatrix(e, false, h.rows, h.cols, o.a), ad.NewScalar(e.t, o.x)
+			if !typedCall(m, "MMULS", a, x) {
+				m.MmulS(a, x)
+			}
+			return obs{}
+		}},
+		{"MDIVS", !w.sparse, func(m ad.Matrix) obs {
+			a, x := mkMatrix(e, false, h.rows, h.cols, o.a), ad.NewScalar(e.t, nonzero([]float64{o.x})[0])
+			if !typedCall(m, "MDIVS", a, x) {
+				m.MdivS(a, x)
+			}
+			return obs{}
+		}},
+		{"MDOTM", !w.sparse && nonempty, func(m ad.Matrix) obs {
+			a := mkMatrix(e, false, h.rows, o.k, cycle(o.a, h.rows*o.k))
+			b := mkMatrix(e, false, o.k, h.cols, cycle(o.b, o.k*h.cols))
+			if !typedCall(m, "MDOTM", a, b) {
+				m.MdotM(a, b)
+			}
+			return obs{}
+		}},
+		{"OUTER", !w.sparse && nonempty, func(m ad.Matrix) obs {
+			a, b := mkVector(e, false, cycle(o.a, h.rows)), mkVector(e, false, cycle(o.b, h.cols))
+			if !typedCall(m, "OUTER", a, b) {
+				m.Outer(a, b)
+			}
+			return obs{}
+		}},
+		{"self-operand-MADDM", !w.sparse, func(m ad.Matrix) obs {
+			r, a := mkMatrix(e, false, h.rows, h.cols, o.b), mkMatrix(e, false, h.rows, h.cols, o.a)
+			if !typedCall(r, "MADDM", m, a) {
+				r.MaddM(m, a)
+			}
+			return obsMatrix("r.MADDM(view,a)", r)
+		}},
 		{"Map", true, func(m ad.Matrix) obs { m.Map(func(s ad.Scalar) { s.SetFloat64(s.GetFloat64() + 1) }); return obs{} }},
 		{"MapSet", true, func(m ad.Matrix) obs {
 			m.MapSet(func(s ad.ConstScalar) ad.Scalar { return ad.NewScalar(e.t, e.norm(2*s.GetFloat64())) })
@@ -731,6 +820,10 @@ func (w *vWorld) readingOp() {
 			same := mkMatrix(e, o.sa, h.rows, h.cols, valuesOf(m))
 			return obs{kind: "Equals", err: !m.Equals(same, 1e-12)}
 		}},
+		{"EQUALS", !w.sparse, func(m ad.Matrix) obs {
+			same := mkMatrix(e, false, h.rows, h.cols, valuesOf(m))
+			return obs{kind: "EQUALS", str: reflectBool(m, "EQUALS", same, 1e-12)}
+		}},
 		{"IsSymmetric", true, func(m ad.Matrix) obs { return obs{kind: "IsSymmetric", err: m.IsSymmetric(1e-12)} }},
 		{"Reduce", true, func(m ad.Matrix) obs {
 			s := m.Reduce(func(r ad.Scalar, x ad.ConstScalar) ad.Scalar { r.SetFloat64(r.GetFloat64() + x.GetFloat64()); return r }, ad.NewScalar(ad.Float64Type, 0))
@@ -764,6 +857,46 @@ func (w *vWorld) readingOp() {
 			r := ad.NullDenseVector(e.t, h.cols)
 			r.VdotM(v, m)
 			return obsVector("VdotM(v,view)", r)
+		}},
+		{"operand-of-MDOTM", !w.sparse && nonempty, func(m ad.Matrix) obs {
+			b := mkMatrix(e, false, h.cols, o.k, cycle(o.b, h.cols*o.k))
+			r := ad.NullDenseMatrix(e.t, h.rows, o.k)
+			if !typedCall(r, "MDOTM", m, b) {
+				r.MdotM(m, b)
+			}
+			return obsMatrix("MDOTM(view,b)", r)
+		}},
+		{"operand-of-MDOTM-right", !w.sparse && nonempty, func(m ad.Matrix) obs {
+			a := mkMatrix(e, false, o.k, h.rows, cycle(o.a, o.k*h.rows))
+			r := ad.NullDenseMatrix(e.t, o.k, h.cols)
+			if !typedCall(r, "MDOTM", a, m) {
+				r.MdotM(a, m)
+			}
+			return obsMatrix("MDOTM(a,view)", r)
+		}},
+		{"operand-of-MDOTV", !w.sparse && nonempty, func(m ad.Matrix) obs {
+			v := mkVector(e, false, cycle(o.b, h.cols))
+			r := ad.NullDenseVector(e.t, h.rows)
+			if !typedCall(r, "MDOTV", m, v) {
+				r.MdotV(m, v)
+			}
+			return obsVector("MDOTV(view,v)", r)
+		}},
+		{"operand-of-VDOTM", !w.sparse && nonempty, func(m ad.Matrix) obs {
+			v := mkVector(e, false, cycle(o.a, h.rows))
+			r := ad.NullDenseVector(e.t, h.cols)
+			if !typedCall(r, "VDOTM", v, m) {
+				r.VdotM(v, m)
+			}
+			return obsVector("VDOTM(v,view)", r)
+		}},
+		{"operand-of-MMULM", !w.sparse, func(m ad.Matrix) obs {
+			r := mkMatrix(e, false, h.rows, h.cols, o.a)
+			b := mkMatrix(e, false, h.rows, h.cols, o.b)
+			if !typedCall(r, "MMULM", b, m) {
+				r.MmulM(b, m)
+			}
+			return obsMatrix("MMULM(b,view)", r)
 		}},
 		{"operand-of-MsubM", true, func(m ad.Matrix) obs {
 			r := mkMatrix(e, o.sa, h.rows, h.cols, o.a)
